@@ -90,6 +90,10 @@ type replayFile struct {
 	S        []uint32 `json:"tape_s"`
 	Trace    []string `json:"trace"`
 	Schedule []string `json:"schedule,omitempty"`
+	// Prelude: when a violation depends on state that survives from earlier runs of the same process (a
+	// package-level cache, a global counter), the tape alone does not reproduce it. The replay then first
+	// re-executes the runs this worker had executed before (from their seeds), then the tape.
+	PreludeRuns []uint64 `json:"prelude_runs,omitempty"`
 	Minimised bool    `json:"minimised"`
 	Candidates int    `json:"minimiser_candidates"`
 }
@@ -190,6 +194,7 @@ func Main(t *testing.T, h Harness) {
 	sum := workerSummary{Property: h.Property, Worker: worker, Seed: seed, Faults: map[string]int{}, Probes: map[string]int{}}
 	sigs := map[uint64]bool{}
 	classesSeen := map[string]bool{}
+	var doneRuns []uint64
 	start := time.Now()
 	for k := int64(0); k < maxRuns; k++ {
 		if time.Since(start) > budget {
@@ -272,6 +277,11 @@ func Main(t *testing.T, h Harness) {
 				}
 				classesSeen[v.Class] = true
 				rec := handleViolation(t, h, seed, run, tier, tape, o, v, replayDir)
+				if rec == nil {
+					// not reproducible from the tape alone: keep it as a replay with prelude; the orchestrator
+					// confirms it in a fresh process (prelude runs + tape) before reporting anything
+					rec = preludeViolation(h, seed, run, tier, tape, o, v, replayDir, doneRuns)
+				}
 				if rec != nil {
 					sum.Violations = append(sum.Violations, *rec)
 				} else {
@@ -282,6 +292,7 @@ func Main(t *testing.T, h Harness) {
 				break
 			}
 		}
+		doneRuns = append(doneRuns, run)
 	}
 	sum.WallS = time.Since(start).Seconds()
 	for s := range sigs {
@@ -336,6 +347,22 @@ func handleViolation(t *testing.T, h Harness, seed, run uint64, tier string, tap
 	return &violationRecord{Class: vv.Class, Detail: vv.Detail, Replay: path, Run: run}
 }
 
+func preludeViolation(h Harness, seed, run uint64, tier string, tape *simrt.Tape, o *Outcome, v Violation, dir string, done []uint64) *violationRecord {
+	if len(done) == 0 || len(done) > 20000 {
+		return nil
+	}
+	rf := replayFile{Property: h.Property, Seed: seed, Run: run, Tier: tier, Class: v.Class, Detail: v.Detail,
+		G: tape.G.Consumed(), S: tape.S.Consumed(), Trace: o.Trace, Schedule: capList(o.Sched.Trace, 400),
+		PreludeRuns: append([]uint64(nil), done...)}
+	os.MkdirAll(dir, 0o755)
+	path := filepath.Join(dir, fmt.Sprintf("%s-%d-%d-%s-prelude.json", h.Property, seed, run, sanitize(v.Class)))
+	b, _ := json.MarshalIndent(rf, "", " ")
+	if err := os.WriteFile(path, b, 0o644); err != nil {
+		return nil
+	}
+	return &violationRecord{Class: v.Class, Detail: v.Detail + " [depends on state left by earlier runs of the process: replay re-executes them first]", Replay: path, Run: run}
+}
+
 func sanitize(s string) string {
 	s = strings.Map(func(r rune) rune {
 		if r >= 'a' && r <= 'z' || r >= 'A' && r <= 'Z' || r >= '0' && r <= '9' || r == '-' || r == '_' {
@@ -381,6 +408,7 @@ func minimise(t *testing.T, h Harness, class string, g, s []uint32, cur *Outcome
 		}
 		return v
 	}
+	exhausted := func() bool { return cands >= budget || time.Now().After(deadline) }
 	shrinkStream := func(which int) {
 		get := func() []uint32 {
 			if which == 0 {
@@ -395,8 +423,8 @@ func minimise(t *testing.T, h Harness, class string, g, s []uint32, cur *Outcome
 			return g, nv
 		}
 		// 1. truncate (replay streams read 0 beyond the end)
-		for n := len(get()) / 2; n >= 1; n /= 2 {
-			for len(get()) >= n {
+		for n := len(get()) / 2; n >= 1 && !exhausted(); n /= 2 {
+			for len(get()) >= n && !exhausted() {
 				v := get()
 				if !try(mk(append([]uint32(nil), v[:len(v)-n]...))) {
 					break
@@ -404,8 +432,8 @@ func minimise(t *testing.T, h Harness, class string, g, s []uint32, cur *Outcome
 			}
 		}
 		// 2. delete chunks
-		for n := len(get()) / 2; n >= 1; n /= 2 {
-			for i := 0; i+n <= len(get()); {
+		for n := len(get()) / 2; n >= 1 && !exhausted(); n /= 2 {
+			for i := 0; i+n <= len(get()) && !exhausted(); {
 				v := get()
 				nv := append(append([]uint32(nil), v[:i]...), v[i+n:]...)
 				if !try(mk(nv)) {
@@ -414,29 +442,33 @@ func minimise(t *testing.T, h Harness, class string, g, s []uint32, cur *Outcome
 			}
 		}
 		// 3. zero chunks, then lower single values
-		for n := len(get()) / 2; n >= 1; n /= 2 {
-			for i := 0; i+n <= len(get()); i += n {
+		for n := len(get()) / 2; n >= 1 && !exhausted(); n /= 2 {
+			for i := 0; i+n <= len(get()) && !exhausted(); i += n {
 				v := get()
-				nv := append([]uint32(nil), v...)
 				allZero := true
 				for j := i; j < i+n; j++ {
-					if nv[j] != 0 {
+					if v[j] != 0 {
 						allZero = false
+						break
 					}
+				}
+				if allZero {
+					continue
+				}
+				nv := append([]uint32(nil), v...)
+				for j := i; j < i+n; j++ {
 					nv[j] = 0
 				}
-				if !allZero {
-					try(mk(nv))
-				}
+				try(mk(nv))
 			}
 		}
-		for i := 0; i < len(get()); i++ {
+		for i := 0; i < len(get()) && !exhausted(); i++ {
 			v := get()
 			if i >= len(v) || v[i] == 0 {
 				continue
 			}
 			for _, c := range []uint32{v[i] % 2, v[i] % 3, v[i] % 4, v[i] % 8, v[i] % 16, v[i] % 64, v[i] % 256} {
-				if c >= v[i] {
+				if c >= v[i] || exhausted() {
 					continue
 				}
 				nv := append([]uint32(nil), get()...)
@@ -447,7 +479,7 @@ func minimise(t *testing.T, h Harness, class string, g, s []uint32, cur *Outcome
 			}
 		}
 	}
-	for round := 0; round < 2; round++ {
+	for round := 0; round < 2 && !exhausted(); round++ {
 		before := len(g) + len(s)
 		shrinkStream(0)
 		shrinkStream(1)
@@ -474,6 +506,16 @@ func replay(t *testing.T, h Harness, path string) {
 	if err := json.Unmarshal(b, &rf); err != nil {
 		fmt.Printf("REPLAY-ERROR %v\n", err)
 		os.Exit(2)
+	}
+	for _, r := range rf.PreludeRuns {
+		tp := simrt.NewTape(rf.Seed, h.Property, r)
+		if h.Craft != nil && rf.Tier == "thorough" {
+			tp.G.Vals = append([]uint32(nil), h.Craft(r)...)
+		}
+		h.Run(t, tp)
+	}
+	if len(rf.PreludeRuns) > 0 {
+		fmt.Printf("   (re-executed %d earlier runs of the worker first)\n", len(rf.PreludeRuns))
 	}
 	o := h.Run(t, simrt.ReplayTape(rf.G, rf.S))
 	for _, l := range o.Trace {
